@@ -147,7 +147,7 @@ def correspondence(ctx):
     # (0) the table literal
     reqs.append("rd.ydayidx"); exp.append("ok " + L.vlib.ilist(L.source_ydayidx() or []))
     # (1) translator validation: _fix / _set_months on raw states
-    n_fix = ctx.budget(4000, 60000)
+    n_fix = ctx.budget(12000, 60000)
     for _ in range(n_fix):
         d = relativedelta()
         for k in L.REL:
@@ -163,7 +163,7 @@ def correspondence(ctx):
         reqs.append("rd.setmonths %d" % m); exp.append("ok %d %d" % (d2.years, d2.months))
     ctx.count("corr_fix_states", n_fix)
     # (2) constructor, wild inputs
-    n_mk = ctx.budget(6000, 100000)
+    n_mk = ctx.budget(20000, 100000)
     values = []
     for _ in range(n_mk):
         kw = L.g_kw(rng, "wild" if rng.random() < 0.6 else "c03")
@@ -174,7 +174,7 @@ def correspondence(ctx):
         if r.startswith("ok") and len(values) < 4000:
             values.append(L.mkrd(kw))
     # (3) expression trees
-    n_tree = ctx.budget(3000, 50000)
+    n_tree = ctx.budget(10000, 50000)
     done = 0
     while done < n_tree:
         t = g_tree(rng, rng.randint(1, 4), "wild" if rng.random() < 0.5 else "c03")
@@ -273,7 +273,7 @@ def oracle(ctx):
     seeds = []
     for m in ctx.mismatches:                      # failing-input search starts from the differing inputs
         seeds.append(m)
-    n = ctx.budget(5000, 120000)
+    n = ctx.budget(15000, 120000)
     values = []
     # --- constructor: totals preserved, bounds, reconstruct, neg/neg, add-neg, bool
     for i in range(n):
@@ -305,7 +305,7 @@ def oracle(ctx):
         if i < 3:
             ctx.sample({"kw": L.kw_json(kw), "value": repr(d), "hash_tuple": capture_hash_tuple(d)[0]})
     # --- binary / unary operators on pairs
-    npairs = ctx.budget(4000, 100000)
+    npairs = ctx.budget(12000, 100000)
     for _ in range(npairs):
         (a, ca), (b, cb) = rng.choice(values), rng.choice(values)
         op = rng.choice(["add", "sub", "abs", "mulint", "td"])
@@ -338,7 +338,7 @@ def oracle(ctx):
             ctx.violation("%s changed the totals: %r" % (op, r), case)
         check_value(ctx, r, op, case)
     # --- equality is an equivalence consistent with hash, and equal deltas act equally
-    ntrip = ctx.budget(4000, 100000)
+    ntrip = ctx.budget(12000, 100000)
     pool = [v for v, _ in values]
     for _ in range(ntrip):
         a = rng.choice(pool)
@@ -398,7 +398,7 @@ def oracle(ctx):
         if not isinstance(getattr(d, which), int) or getattr(d, which) != 3:
             ctx.violation("relativedelta(%s=3.0) stored %r" % (which, getattr(d, which)), {"law": "intfloat", "field": which})
     # --- EXECUTABLE-ONLY part: float fields, float scalars, normalized()
-    nf = ctx.budget(3000, 60000)
+    nf = ctx.budget(8000, 60000)
     for _ in range(nf):
         kw = {}
         for k, s in (("days", 400), ("hours", 60), ("minutes", 200), ("seconds", 5000), ("microseconds", 10 ** 6)):
